@@ -433,4 +433,48 @@ def extra_obligations(w, tier, seed):
                   ok_g, 'atoms = %s; returns %s' % (inits, rets), undecided=not (inits and rets) or not any('set' in i.lower() for i in inits)))
     out.append(ob('scan/relctx/lateral-handed-on', 'relctx.py: every function taking `lateral` passes lateral=lateral to the range-variable builder whose result it returns',
                   funcs >= 5 and sites >= 10 and not bad, '; '.join(bad[:4]) or '%d functions, %d builder calls' % (funcs, sites), undecided=(funcs < 5 or sites < 10) and not bad))
+    # G (path resolution, AST obligation): pathctx.map_path_id rewrites a path id with the LONGEST matching outer prefix of the view map -- the candidates are tried
+    #   in the order of decreasing prefix length and the first hit wins.  Iterating the map in insertion order resolves `(A).b.c` through the entry for `(A)` when an entry
+    #   for `(A).b` exists, and the column is looked up under the wrong inner path.
+    fn, _ = repo.find_def('edb/pgsql/compiler/pathctx.py', 'map_path_id')
+    loops = [n for n in ast.walk(fn) if isinstance(n, ast.For)]
+    st = None; where = 'no loop over the map found'
+    if len(loops) == 1:
+        it = loops[0].iter; src = it
+        if isinstance(it, ast.Name):
+            asg = [n for n in ast.walk(fn) if isinstance(n, ast.Assign) and len(n.targets) == 1 and isinstance(n.targets[0], ast.Name) and n.targets[0].id == it.id]
+            src = asg[0].value if len(asg) == 1 else None
+        where = 'line %d: for ... in %s' % (loops[0].lineno, ast.unparse(src) if src is not None else ast.unparse(it))
+        if src is not None:
+            txt = ast.unparse(src)
+            if isinstance(src, ast.Call) and ast.unparse(src.func) == 'sorted':
+                kw = {k.arg: k.value for k in src.keywords}
+                key = kw.get('key'); rev = kw.get('reverse')
+                key_ok = (isinstance(key, ast.Lambda) and len(key.args.args) == 1
+                          and ast.unparse(key.body) in ('len(%s[0])' % key.args.args[0].arg,))
+                if key_ok and isinstance(rev, ast.Constant) and rev.value is True and ast.unparse(src.args[0]) == 'path_id_map.items()': st = True
+                elif key_ok and (rev is None or (isinstance(rev, ast.Constant) and rev.value is False)): st = False
+            elif txt in ('path_id_map.items()', 'path_id_map', 'list(path_id_map.items())', 'reversed(path_id_map.items())'): st = False
+    out.append(ob('scan/map_path_id/longest-prefix-first', 'pathctx.map_path_id tries the prefixes of the view map in the order of decreasing length (sorted(path_id_map.items(), key=len of the outer id, reverse=True)) '
+                  'and stops at the first hit', st is True, where, undecided=st is None))
+    # H (scoping, AST obligation): relctx._lateral_union_join injects into EVERY arm of the right-hand UNION the join condition built from the columns of THAT arm:
+    #   what is written into `component.where_clause` is computed inside the iteration for this component (no value carried over from the previous arm, whose
+    #   column references belong to another sub-select).
+    fn, _ = repo.find_def('edb/pgsql/compiler/relctx.py', '_lateral_union_join')
+    st = None; where = 'loop over each_query_in_set not found'
+    for lp in [n for n in fn.body if isinstance(n, ast.For) and 'each_query_in_set' in ast.unparse(n.iter)]:
+        comp = ast.unparse(lp.target)
+        sinks = [n for n in ast.walk(lp) if isinstance(n, ast.Assign) and any(ast.unparse(t) == comp + '.where_clause' for t in n.targets)]
+        flow = set()
+        for sk in sinks: flow |= {x.id for x in ast.walk(sk.value) if isinstance(x, ast.Name) and isinstance(x.ctx, ast.Load)}
+        assigned_in = {x.id for x in ast.walk(lp) if isinstance(x, ast.Name) and isinstance(x.ctx, ast.Store)}
+        carried = []
+        for nm in sorted((flow & assigned_in) - {comp}):
+            first = next((s_ for s_ in lp.body if any(isinstance(x, ast.Name) and x.id == nm for x in ast.walk(s_))), None)
+            fresh_ = (isinstance(first, (ast.Assign, ast.AnnAssign)) and ast.unparse(first.targets[0] if isinstance(first, ast.Assign) else first.target) == nm
+                      and first.value is not None and not any(isinstance(x, ast.Name) and x.id == nm for x in ast.walk(first.value)))
+            if not fresh_: carried.append('%s (first touched at line %d: %s)' % (nm, first.lineno, ast.unparse(first).splitlines()[0][:80]))
+        if sinks:
+            st = not carried; where = 'line %d: ' % lp.lineno + ('; '.join(carried) if carried else 'every value written to %s.where_clause is initialised per arm' % comp)
+    out.append(ob('scan/_lateral_union_join/condition-per-arm', 'relctx._lateral_union_join: the condition added to an arm of the UNION is (re)initialised inside the iteration for that arm', st is True, where, undecided=st is None))
     return out
